@@ -31,6 +31,7 @@ from placement.handlers import allocation
 from placement.handlers import inventory
 from placement.handlers import util as data_util
 from placement import microversion
+from placement.objects import consumer as consumer_obj
 from placement.objects import reshaper
 from placement.objects import resource_provider as rp_obj
 from placement.policies import reshaper as policies
@@ -117,6 +118,11 @@ def reshape(req):
         data_util.update_consumers(consumers.values(), requested_attrs)
 
         reshaper.reshape(ctx, inventory_by_rp, allocation_objects)
+        if new_consumers_created:
+            # An empty allocations entry for a consumer that did not exist
+            # writes nothing; do not keep the auto-created record.
+            consumer_obj.delete_consumers_if_no_allocations(
+                ctx, [c.uuid for c in new_consumers_created])
 
     def _create_allocations():
         try:
